@@ -315,6 +315,37 @@ fn run_tryfrom(c: &mut Ctx) {
     }
 }
 
+/// Iterator::sum results (f64 and TwoFloat items): slowly decaying series, one large head followed by
+/// many tiny terms, cancelling runs.
+fn run_sum(c: &mut Ctx) {
+    let len = c.rng.range(2, 300) as usize;
+    let mode = c.rng.below(4);
+    let head = f64_in(&mut c.rng, -300, 300);
+    let mut v: Vec<f64> = Vec::with_capacity(len);
+    for i in 0..len {
+        let x = match mode {
+            0 => head * pow2(-(i as i64)),                              // geometric decay
+            1 => if i == 0 { head } else { head * pow2(-c.rng.range(50, 60)) * (1.0 + (c.rng.next() >> 12) as f64 * pow2(-52)) },
+            2 => if i % 2 == 0 { f64_in(&mut c.rng, -20, 20) } else { -v[i - 1] * (1.0 + pow2(-c.rng.range(10, 52))) },
+            _ => f64_in(&mut c.rng, -40, 40),
+        };
+        v.push(if x.is_finite() { x } else { 1.0 });
+    }
+    let ins = [len as u64, hx(v[0]), hx(v[len - 1]), mode];
+    c.note("sum", &ins, true);
+    let tfs: Vec<TwoFloat> = v.iter().map(|&x| TwoFloat::from(x) * 1.0000000000000002).collect();
+    for (op, r) in [
+        ("sum_f64", guard(|| w(v.iter().copied().sum::<TwoFloat>()))),
+        ("sum_ref_f64", guard(|| w(v.iter().sum::<TwoFloat>()))),
+        ("sum_tf", guard(|| w(tfs.iter().copied().sum::<TwoFloat>()))),
+        ("sum_ref_tf", guard(|| w(tfs.iter().sum::<TwoFloat>()))),
+    ] {
+        if let Ok(r) = r {
+            check(c, op, &ins, r);
+        }
+    }
+}
+
 fn run_int(c: &mut Ctx) {
     // integer conversions incl. the dedicated 128-bit "tie next to an odd high word" generator
     let len = 1 + c.rng.below(128) as u32;
@@ -493,6 +524,9 @@ pub fn c01(c: &mut Ctx) {
             c.count("extreme_constructor_cases");
         }
         run_int(c);
+        if c.rng.chance(1, 4) {
+            run_sum(c);
+        }
         run_tryfrom(c);
         run_tryfrom(c);
     }
